@@ -118,9 +118,11 @@ func vfRunTracerOps(ops []vfTrOp) (viol error, invalid bool) {
 		after := fmt.Sprintf("op %d %v of %v", i+1, op, ops)
 		switch op.Op {
 		case "init":
-			if s := model[op.Name]; s != nil {
-				return nil, true // re-Init of a live slot: outside the domain
+			if s := model[op.Name]; s != nil && !s.done {
+				return nil, true // re-Init of a slot that is still awaited: outside the domain
 			}
+			// (re-initialising a name whose earlier trace has been handed over starts a new hand-off: the waiter gets the
+			// first trace completed after this Init, not the earlier one)
 			tr.Init(name(op.Name))
 			model[op.Name] = &vfSlot{}
 		case "complete":
@@ -209,9 +211,15 @@ func vfTrClassify(c vfTrCase) ([]string, bool) {
 	// Complete-before-Await, Await-before-Complete, and a Clear or duplicate Complete
 	completed := map[int]int{}
 	awaited := map[int]bool{}
-	var cba, abc, clearOrDup bool
+	var cba, abc, clearOrDup, reinit bool
+	inits := map[int]int{}
 	for _, op := range c.Ops {
 		switch op.Op {
+		case "init":
+			inits[op.Name]++
+			if inits[op.Name] > 1 {
+				reinit = true
+			}
 		case "complete":
 			if awaited[op.Name] {
 				abc = true
@@ -230,6 +238,9 @@ func vfTrClassify(c vfTrCase) ([]string, bool) {
 		}
 	}
 	var cl []string
+	if reinit {
+		cl = append(cl, "re-init")
+	}
 	if cba {
 		cl = append(cl, "complete-before-await")
 	}
